@@ -130,6 +130,31 @@ func takeSnap(s *interpreter.State) *snap {
 	return n
 }
 
+// takeSnapLight fingerprints a State without copying its stack data (the key has the same ingredients as takeSnap's).
+func takeSnapLight(s *interpreter.State) *snap {
+	n := &snap{cond: append([]int{}, s.CondStack...), scriptIdx: s.ScriptIdx, opIdx: s.OpcodeIdx, lastSep: s.LastCodeSeparatorIdx, numOps: s.NumOps,
+		flags: uint32(s.Flags), finished: s.IsFinished, afterGenesis: s.Genesis.AfterGenesis, early: s.Genesis.EarlyReturn}
+	h := hashStack(0xcbf29ce484222325, 'D', s.DataStack)
+	h = hashStack(h, 'A', s.AltStack)
+	h = hashStack(h, 'E', s.ElseStack)
+	h = hashStack(h, 'S', s.SavedFirstStack)
+	var sb strings.Builder
+	fmt.Fprintf(&sb, "stacks#%x D=%d A=%d E=%d S=%d C%v pc=%d:%d sep=%d ops=%d fl=%x fin=%v g=%v/%v scripts=%d:", h, len(s.DataStack), len(s.AltStack), len(s.ElseStack), len(s.SavedFirstStack), n.cond, n.scriptIdx, n.opIdx, n.lastSep, n.numOps, n.flags, n.finished, n.afterGenesis, n.early, len(s.Scripts))
+	for _, ps := range s.Scripts {
+		h := uint64(14695981039346656037)
+		for _, op := range ps {
+			h = (h ^ uint64(op.Value())) * 1099511628211
+			h = (h ^ uint64(uint32(op.Length()))) * 1099511628211
+			h = kernel.FNV64b(h, op.Data)
+			h = (h ^ 0xff) * 1099511628211
+		}
+		fmt.Fprintf(&sb, "%d/%x,", len(ps), h)
+	}
+	n.key = sb.String()
+	n.skey = n.key
+	return n
+}
+
 // describe writes a snapshot out for a violation message.
 func (n *snap) describe() string {
 	return fmt.Sprintf("{data %s alt %s else %s saved %s cond %v pc %d:%d numOps %d finished %v}", stackStr(n.data), stackStr(n.alt), stackStr(n.els), stackStr(n.saved), n.cond, n.scriptIdx, n.opIdx, n.numOps, n.finished)
@@ -237,6 +262,7 @@ type recorder struct {
 	max       int
 	volume    int // bytes of snapshot data seen so far
 	maxVolume int
+	light     bool                 // do not deep-copy snapshots: keep hashes and sizes only (programs with MiB-sized items)
 	keep      bool                 // retain the *State objects handed to BeforeStep (for resume runs)
 	states    []*interpreter.State // aligned with events (nil where not kept)
 }
@@ -272,10 +298,18 @@ func (r *recorder) rec(kind evKind, st *interpreter.State, arg []byte, err error
 				panic(errTooBig)
 			}
 		}
-		e.st = takeSnap(st)
+		if r.light {
+			e.st = takeSnapLight(st)
+		} else {
+			e.st = takeSnap(st)
+		}
 	}
 	if arg != nil {
-		e.arg = append([]byte{}, arg...)
+		if r.light && len(arg) > 4096 {
+			e.arg = []byte(fmt.Sprintf("item of %d bytes #%x", len(arg), kernel.FNV64b(14695981039346656037, arg)))
+		} else {
+			e.arg = append([]byte{}, arg...)
+		}
 	}
 	r.events = append(r.events, e)
 	if r.keep {
